@@ -138,7 +138,9 @@ namespace sim
 	void simulation::rebind_socket(ip::tcp::socket* prev, ip::tcp::socket* s, ip::tcp::endpoint ep)
 	{
 		auto i = m_listen_sockets.find(ep);
-		assert(i != m_listen_sockets.end());
+		// an accepted socket shares its acceptor's endpoint without owning the
+		// entry; once the acceptor is closed there is nothing to re-point
+		if (i == m_listen_sockets.end()) return;
 		if (i->second != prev) return;
 		i->second = s;
 	}
